@@ -58,15 +58,20 @@ def compat_chars(limit: int = 160) -> list[str]:
 TOKENS = ["IBAN", "BBAN", "SWIFT", "BIC", "NONE", "NULL", "TRUE", "TEST", "XXX", "NAN", "INF", "E10", "0X1F", "0E0"]
 
 
-def token_bbans(spec: dict, rng: random.Random) -> list[str]:
+def token_bbans(spec: dict, rng: random.Random, fields=None) -> list[str]:
     """Structure-conforming BBANs that start or end with a vocabulary token, one per token and place that
-    the position classes allow."""
+    the position classes allow; with `fields` (component -> (start, end)) also at the start and end of every
+    field."""
     cls = R.position_classes(spec["bban_spec"])
     out = []
     if not cls:
         return out
     for t in TOKENS + [spec.get("country", "") * 2]:
-        for start in (0, len(cls) - len(t)):
+        starts = [0, len(cls) - len(t)]
+        for s_, e_ in (fields or {}).values():
+            if e_ - s_ >= len(t):
+                starts += [s_, e_ - len(t)]
+        for start in dict.fromkeys(starts):
             if t and 0 <= start and start + len(t) <= len(cls) and all(ch in cls[start + i] for i, ch in enumerate(t)):
                 b = list(random_bban(spec, rng))
                 b[start : start + len(t)] = list(t)
